@@ -11,6 +11,9 @@ def mine(key):
 
 def run(ctx):
     yield tcb_forged_part(ctx, mine, name='tcb-closed-system-transfer', closed=('transfer',))
+    # sender mapping under arbitrary (also partial / forged) acknowledgments: the retransmission queue always covers [SND.UNA, SND.NXT)
+    yield tcb_forged_part(ctx, lambda k: ':c01:' in k, name='tcb-sender-mapping',
+                          situations=['estab_inflight', 'estab_wndlimited', 'synsent_data', 'finwait1', 'lastack', 'closing', 'simopen'])
 
 
 MANIFEST = {
